@@ -29,6 +29,10 @@ func (v *VerifC15) handlers(kind string) (cache.ResourceEventHandlerFuncs, bool)
 		return createAppProtectLogConfHandlers(lbc), true
 	case "dos":
 		return createAppProtectDosProtectedResourceHandlers(lbc), true
+	case "dospolicy":
+		return createAppProtectDosPolicyHandlers(lbc), true
+	case "doslogconf":
+		return createAppProtectDosLogConfHandlers(lbc), true
 	case "ingress":
 		return createIngressHandlers(lbc), true
 	case "vs":
